@@ -810,6 +810,7 @@ impl Scenario for HostileOutstation {
                         blocks: rng.range(1, 3) as u8,
                         block_size: rng.range(1, 30) as u8,
                         abort_at: None,
+                        auth: rng.chance(1, 3),
                     },
                 }),
                 5 => script.push(MOp::User {
